@@ -266,6 +266,8 @@ def run(P, R, tier):
             found["DDL"] += 1
             if arg_ok and want is not None and g.same(want):
                 R.ok("C20.laws", inst, "sinh_constant sqrt(I) sinh(la ln10) - q F/(A g)")
+            elif not ({"sinh_constant", "mu_x"} <= RF.names_in(f["body"])):
+                R.anchor_missing("C20.laws", "%s: sinh_constant / mu_x no longer occur in residuals (renamed?)" % inst)
             else:
                 R.violation("C20.laws", inst, "the diffuse-layer residual `%s` is not the Gouy-Chapman relation sigma(psi) - sigma(species)" % T.text(x[4])[:160], line=x[1], **where)
         elif "capacitance0" in sy and any(s_.startswith("LA:") for s_ in sy):
